@@ -374,7 +374,9 @@ class RefGrammar:
                 continue
             if S_nullable(S):
                 return d, w
-            for a in sorted(S_firsts(S)):
+            # among equally short expansions prefer NAME/NUMBER/STRING over punctuation and keywords ('...' as
+            # the minimal atom makes most sentences uncompilable)
+            for a in sorted(S_firsts(S), key=lambda x: (is_quoted(x), x)):
                 c = self.cost[a] if a in self.rules else 1
                 if c >= INF or (rule, a) in self.banned:
                     continue
